@@ -60,6 +60,10 @@ func c11Alphabet() []mOp {
 		mOp{Kind: "updatemany", Pt: "p", R1: [][]string{P[2], P[0]}, R2: [][]string{{"zed", "data1", "read"}, {"zed2", "data1", "read"}}},
 		mOp{Kind: "updatemany", Pt: "g", R1: [][]string{G[0], G[1]}, R2: [][]string{{"zed", "admin"}, {"zed2", "admin"}}},
 		mOp{Kind: "updatemany", Pt: "g", R1: [][]string{G[2], G[0]}, R2: [][]string{{"zed", "admin"}, {"zed2", "admin"}}})
+	// a batch whose first pair is an identity (old == new) and whose second old rule may be
+	// missing: outside the F08 guard when the rule is listed (compared with the model only)
+	al = append(al, mOp{Kind: "updatemany", Pt: "p", R1: [][]string{P[0], P[1]}, R2: [][]string{P[0], {"zed3", "data1", "read"}}},
+		mOp{Kind: "updatemany", Pt: "g", R1: [][]string{G[0], G[1]}, R2: [][]string{G[0], {"zed3", "admin"}}})
 	al = append(al, mOp{Kind: "save"}, mOp{Kind: "load"})
 	return al
 }
@@ -145,7 +149,9 @@ func init() {
 			}
 			cur := map[string][][]string{"p": m0.current("p"), "g": m0.current("g")}
 			for ai, o := range al {
-				if !c11Guard(cur, o) {
+				inGuard := c11Guard(cur, o)
+				identityBatch := o.Kind == "updatemany" && len(o.R1) > 0 && sameRule(o.R1[0], o.R2[0])
+				if !inGuard && !identityBatch {
 					continue
 				}
 				for _, fail := range []int{-1, 0, 1} {
@@ -176,7 +182,7 @@ func init() {
 						c11Observe(c, id, k, m, res)
 					}
 					c.Count(o.Kind)
-					if res == "falseerr" || res == "trueerr" {
+					if (res == "falseerr" || res == "trueerr") && inGuard {
 						// the property's predicate: an error leaves rules, links, decisions unchanged
 						salt++
 						if m.listedKey() != lb || m.linksKey("g", c11Names(), nil) != kb || c11Decisions(m.E, salt) != db {
@@ -201,7 +207,7 @@ func init() {
 							c.Count("follow-up-after-refused-update")
 						}
 					}
-					if fail == -1 {
+					if fail == -1 && inGuard {
 						key := m.listedKey()
 						if !seen[key] {
 							seen[key] = true
